@@ -403,6 +403,12 @@ def run_fetch(spec, fsdir, rng=None, latencies=None, config=None, step_cap=20000
                 check_archive(world, fsdir, config or {}, sim)
             except Violation as v:
                 violation = v
+            except Exception as e:  # noqa: BLE001
+                # the archive is read back through mwlib's own reader (nuwiki.Adapt): if that fails, what the
+                # archive "holds" cannot be had
+                import traceback
+                violation = Violation("T-read", f"the archive cannot be read back: {type(e).__name__}: {e}",
+                                      detail={"tb": traceback.format_exc()[-1500:]})
     finally:
         sys.stdout = saved_stdout
         devnull.close()
